@@ -4,6 +4,7 @@ import sys, os, re, json, time, subprocess, hashlib, glob, fcntl, random, shutil
 ROOT = os.path.dirname(os.path.dirname(os.path.abspath(__file__)))
 sys.path.insert(0, os.path.join(ROOT, 'lib'))
 import glue
+import rs2v
 
 COQ = os.path.join(ROOT, 'coq')
 WORK = os.path.join(ROOT, 'work')
@@ -556,6 +557,11 @@ def run_check(prop, tier, seed, replay):
     thms, pinproblems = check_pins(prop)
     if pinproblems:
         raise CheckError('\n'.join(pinproblems))
+    # kernel translator: regenerate coq/Gen/*.v from the CURRENT source (before the Makefile is refreshed)
+    try:
+        gen_status = rs2v.regenerate(REPO)
+    except rs2v.Rs2vError as ex:
+        raise CheckError(str(ex))
     ok, coqlog, coq_dt = build_coq(prop)
     if not ok:
         # a theorem file (or the generated kernel equality) no longer compiles
@@ -579,6 +585,14 @@ def run_check(prop, tier, seed, replay):
             if extra:
                 raise CheckError('theorem %s depends on axioms outside the allow-list: %s' % (name, extra))
             discharged += 1
+    # the GenEq lemmas (generated kernel = hand model) this property registered: one obligation each;
+    # a lemma that no longer compiles is a broken proof obligation, the correspondence search still runs
+    geneq = rs2v.check_geneq(prop, gen_status)
+    obligations += len(geneq['lemmas'])
+    discharged += len(geneq['discharged'])
+    broken += geneq['broken']
+    for b in geneq['broken']:
+        log('BROKEN OBLIGATION ' + b)
     driver = build_driver()
 
     if replay:
@@ -704,7 +718,8 @@ def run_check(prop, tier, seed, replay):
         path = write_replay(pid, 'spec-violation', b,
                             ['the real library\'s observation is rejected by the spec checker ok_%s (or the process died)' % pid,
                              'first failing case (unshrunk): ' + l[:1000],
-                             '%d failing cases in this run' % len(unknown_spec)] + notes, [small])
+                             '%d failing cases in this run' % len(unknown_spec)] + notes
+                            + ['broken proof obligation: ' + x for x in broken], [small])
         out_lines.append('VIOLATION property=%s replay=%s' % (pid, path))
         violations = len(unknown_spec)
         exit_code = 1
@@ -740,7 +755,8 @@ def run_check(prop, tier, seed, replay):
             b, s, l = found
             small = shrink(sessions[(b, s)], l) if 'CRASH' not in l else l
             path = write_replay(pid, 'spec-violation', b,
-                                ['found by neighbourhood search after %d correspondence disagreements' % len(all_dis)], [small])
+                                ['found by neighbourhood search after %d correspondence disagreements' % len(all_dis)]
+                                + ['broken proof obligation: ' + x for x in broken], [small])
             out_lines.append('VIOLATION property=%s replay=%s' % (pid, path))
             violations = 1
         else:
@@ -766,11 +782,17 @@ def run_check(prop, tier, seed, replay):
                'OCaml extraction with ExtrOcamlBasic only (no Extract Constant / Extract Inductive of our own); cross-checked in Coq on %d sampled cases' % n_re,
                'ocaml/driver.ml (hex token conversion, comparison)',
                'Rust harness /verif/harness (case construction, observation), rustc/std semantics',
-               'hand-written model coq/Impl/* tied to /repo only by the correspondence runs'] + prop.get('trusted_extra', [])
+               'hand-written model coq/Impl/* tied to /repo by the correspondence runs'
+               + (' and, for the kernels of %s, by the rs2v translator (rs2v/src: kernel table, translated subset; docs/RS2V.md)'
+                  % ', '.join(geneq['files']) if geneq['files'] else ' only')] + prop.get('trusted_extra', [])
     ev = {
         'property_id': pid, 'tier': tier, 'seed': seed, 'level': prop.get('level', 'proof'),
         'coverage': {
-            'obligations': obligations, 'discharged': discharged if not broken else max(discharged - len(broken), 0),
+            'obligations': obligations,
+            'discharged': discharged if not [x for x in broken if not x.startswith('geneq:')] else max(discharged - len(broken), 0),
+            'geneq': {'files': geneq['files'], 'lemmas': geneq['lemmas'], 'discharged': len(geneq['discharged']),
+                      'broken': geneq['broken'], 'kernels_regenerated': sum(1 for k in gen_status if k['ok']),
+                      'kernels_failed': geneq['kernels_failed']},
             'checker_cmd': 'make -C coq ' + ' '.join(f[:-2] + '.vo' for f in prop['coq_files']) + ' && coqc work/Assumptions_%s.v' % pid,
             'trusted_base': trusted,
             'theorems': [n for _, n, _ in thms],
